@@ -5,7 +5,7 @@ import logging
 import weakref
 from typing import TYPE_CHECKING
 
-from claripy import Or, backends
+from claripy import Or, backends, false
 from claripy.ast import Base
 from claripy.errors import BackendError, UnsatError
 
@@ -286,6 +286,9 @@ class CompositeFrontend(ConstrainedFrontend):
                 try:
                     if any(backends.concrete.convert(c) is False for c in set_constraints):
                         self._unsat = True
+                        # no child holds a variable-free constraint: keep the contradiction in self.constraints, which
+                        # is what combine(), merge() with an ancestor and pickling read
+                        child_added.append(false())
                 except BackendError:
                     unsure.extend(set_constraints)
             else:
@@ -490,15 +493,19 @@ class CompositeFrontend(ConstrainedFrontend):
 
         log.debug("... merging noncommon solvers")
         combined_noncommons = []
-        for ns in noncommon_solvers:
+        for cs, ns in zip([self, *others], noncommon_solvers, strict=True):
             log.debug("... %d", len(ns))
             if len(ns) == 0:
                 s = self._template_frontend.blank_copy()
-                combined_noncommons.append(s)
             elif len(ns) == 1:
-                combined_noncommons.append(ns[0])
+                s = ns[0]
             else:
-                combined_noncommons.append(ns[0].combine(ns[1:]))
+                s = ns[0].combine(ns[1:])
+            if cs._unsat:
+                # unsatisfiable because of a variable-free constraint that no child holds: this option has no models
+                s = s.branch()
+                s.add([false()])
+            combined_noncommons.append(s)
 
         if len(combined_noncommons):
             _, merged_noncommon = combined_noncommons[0].merge(combined_noncommons[1:], merge_conditions)
@@ -515,4 +522,10 @@ class CompositeFrontend(ConstrainedFrontend):
         return True, merged
 
     def split(self):
-        return [s.branch() for s in self._solver_list]
+        results = [s.branch() for s in self._solver_list]
+        if self._unsat:
+            # the variable-free contradiction is a conjunct of its own
+            contradiction = self._template_frontend.blank_copy()
+            contradiction.add([false()])
+            results.append(contradiction)
+        return results
